@@ -14,7 +14,7 @@ ENCODED = [
     "primaite.simulator.network.hardware.base.Link.can_transmit_frame / transmit_frame / pre_timestep / is_up / endpoint_down",
     "primaite.simulator.network.hardware.base.WiredNetworkInterface.send_frame",
     "primaite.simulator.network.hardware.nodes.network.switch.SwitchPort.send_frame",
-    "primaite.simulator.network.airspace.AirSpace.can_transmit_frame / transmit / reset_bandwidth_load",
+    "primaite.simulator.network.airspace.AirSpace.can_transmit_frame / transmit / reset_bandwidth_load, WirelessNetworkInterface.send_frame (real wireless routers)",
     "Link.can_transmit_frame + transmit_frame accounting translated to FP64 (Engine T)",
 ]
 ASSUMPTIONS = [
@@ -210,6 +210,69 @@ def link_toggle(bw: int, s1: int, s2: int, dis_a: bool, dis_b: bool, ticks: int,
         cover("reused")
         check(len(got) == n0 + 1, "a frame within the per-tick bandwidth was dropped on a link that carried nothing this tick")
     check(link.current_load <= link.bandwidth, "link.current_load exceeds link.bandwidth")
+
+
+def airspace_capacity(cap: int, s1: int, s2: int, s3: int, nested: bool, tick_between: bool, dis_b: bool):
+    """Wireless channel: two real wireless routers share an AirSpace frequency; the data sent on the channel in a tick
+    never exceeds its capacity (also when the receiver replies before returning), the load starts every tick at zero
+    and a disabled wireless interface receives nothing."""
+    from vlib.fixtures import mk_node
+
+    assume(all_of(cap > 0, s1 >= 0, s2 >= 0, s3 >= 0))
+    with concrete():
+        quiet()
+        chdriver.OPAQUE_SYMBOLIC_FORMAT = True
+        sim = new_sim()
+        net = sim.network
+        ra = mk_node("wireless-router", "wr_a", start_up_duration=0, airspace=net.airspace)
+        rb = mk_node("wireless-router", "wr_b", start_up_duration=0, airspace=net.airspace)
+        for r, ip in ((ra, "192.168.9.1"), (rb, "192.168.9.2")):
+            r.power_on()
+            net.add_node(r)
+            r.configure_wireless_access_point(ip, "255.255.255.0")
+        wa, wb = ra.wireless_access_point, rb.wireless_access_point
+        air = net.airspace
+        freq = wa.frequency
+    air.frequencies[freq.name].data_rate_bps = cap * 1024 * 1024  # capacity in Mbit as a solver integer
+    f1, f2, f3 = FakeFrame(s1), FakeFrame(s2), FakeFrame(s3)
+    got = []
+
+    def load():
+        return air.bandwidth_load.get(freq.frequency_hz, 0)
+
+    def after():
+        check(load() <= cap, "wireless channel load exceeds the channel capacity")
+
+    def recv_b(frame):
+        got.append(frame)
+        if frame is f1 and nested:
+            wb.send_frame(f2)
+            after()
+        return True
+
+    object.__setattr__(wb, "receive_frame", recv_b)
+    object.__setattr__(wa, "receive_frame", lambda fr: (got.append(fr), True)[1])
+    if dis_b:
+        wb.disable()
+    sent1 = wa.send_frame(f1)
+    after()
+    if s1 > cap:
+        check(not sent1 and f1 not in got, "a frame larger than the channel capacity was transmitted")
+    if dis_b:
+        cover("air_disabled")
+        check(f1 not in got, "a disabled wireless interface received a frame")
+    if tick_between:
+        sim.pre_timestep(1)
+        check(load() == 0, "wireless channel load not reset at the start of the tick")
+        cover("air_tick")
+    before = load()
+    sent3 = wa.send_frame(f3)
+    after()
+    if before + s3 <= cap:
+        check(sent3, "a frame within the remaining channel capacity was dropped")
+    else:
+        check(not sent3, "a frame overflowing the channel capacity was transmitted")
+    cover("air_done")
 
 
 def switch_flood(bw: int, s1: int, s2: int, pre: int, nested: bool):
@@ -412,6 +475,13 @@ HARNESSES = {
         "thorough": [{"fixed": {}, "timeout": 400}],
         "cover": ["went_down", "reused"],
         "bounds": "one send, then either/both/no end disabled, 1-3 ticks, re-enable, one more send; sizes/bandwidth unbounded solver integers",
+    },
+    "airspace_capacity": {
+        "fn": airspace_capacity,
+        "quick": [{"fixed": {}, "timeout": 200}],
+        "thorough": [{"fixed": {}, "timeout": 400}],
+        "cover": ["air_done", "air_tick", "air_disabled"],
+        "bounds": "two wireless routers on one frequency, 2 top-level sends with an optional nested reply, optional tick in between, receiver enabled/disabled; sizes and capacity unbounded solver integers",
     },
     "switch_flood": {
         "fn": switch_flood,
